@@ -664,7 +664,7 @@ def run_side_outputs(root, tag, compiler):
             ('stack_usage', ['-fstack-usage'], {}), ('save_temps_obj', ['-save-temps=obj'], {}), ('dependencies_output', [], {'DEPENDENCIES_OUTPUT': 'envdeps.d'}), ('sunpro_dependencies', [], {'SUNPRO_DEPENDENCIES': 'sun.d'})]
     if base == 'gcc': scen += [('aux_info', ['-aux-info', 'protos.txt'], {}), ('dump_tree', ['-fdump-tree-optimized'], {}), ('callgraph_info', ['-fcallgraph-info'], {}), ('opt_record', ['-fsave-optimization-record'], {}), ('dump_rtl', ['-fdump-rtl-expand'], {}), ('dumpbase', ['-fstack-usage', '-dumpbase', 'zz'], {})]
     if base == 'clang': scen += [('opt_record', ['-fsave-optimization-record'], {}), ('serialize_diag', ['--serialize-diagnostics', 'diag.dia'], {}), ('time_trace', ['-ftime-trace'], {})]
-    scen += [('MD_special_object_name', ['-MD'], {}), ('MMD_special_object_name', ['-MMD', '-MP'], {})]
+    scen += [('MD_special_object_name', ['-MD'], {}), ('MMD_special_object_name', ['-MMD', '-MP'], {}), ('MD_two_targets', ['-MD', '-MT', 'a', '-MT', 'b'], {}), ('MD_MQ_and_MT', ['-MD', '-MQ', 'x y', '-MT', 'z'], {})]
     for name, flags, env in scen:
         w = World(os.path.join(root, 'side_' + name), f'{tag}so{name}', compiler, random.Random(0)); w.keep_outputs = False
         w.flags = ['-O1', '-Iinc1'] + flags; w.env = dict(env); w.side_names_only = name in ('opt_record', 'time_trace')
@@ -701,3 +701,33 @@ def run_extra_files(root, tag, compiler):
         finally:
             w.sc.stop(); shutil.rmtree(w.root, ignore_errors=True)
     return {'requests': reqs, 'extra_file_scenarios': len(scen), 'fails': fails, 'samples': samples[:1]}
+
+
+# ------------------------------------------------------------------------------------------------ output that is not a regular file
+def run_special_outputs(root, tag, compiler):
+    """`-o <character device>` (what `-o /dev/null` is; a private node made with mknod stands in for it): the device must still be a device
+    afterwards, and what was 'read back' from it must not be served to a later compile of the same source to a real file"""
+    d = os.path.join(root, 'special'); shutil.rmtree(d, ignore_errors=True); w = os.path.join(d, 'w'); os.makedirs(os.path.join(w, 'dev'))
+    node = os.path.join(w, 'dev', 'null')
+    try: os.mknod(node, 0o666 | stat.S_IFCHR, os.makedev(1, 3))
+    except (PermissionError, OSError) as e: shutil.rmtree(d, ignore_errors=True); return {'requests': 0, 'skipped': f'mknod: {e}', 'fails': [], 'samples': []}
+    open(os.path.join(w, 'm.c'), 'w').write('int m(int x) { return x * 7 + 1; }\n')
+    sc = Sc(os.path.join(d, 'sc'), tag); sc.start(); fails = []; trace = []; reqs = 0
+    try:
+        def req(out):
+            nonlocal reqs
+            r = sc.compile([compiler, '-O1', '-c', 'm.c', '-o', out], w); reqs += 1
+            trace.append(f'{os.path.basename(compiler)} -O1 -c m.c -o {out} -> rc={r.returncode}; dev/null is {"a character device" if stat.S_ISCHR(os.stat(node).st_mode) else "NOT a device any more"}'); return r
+        for out in ('dev/null', 'dev/null', 'real.o', 'dev/null', 'real2.o'):
+            r = req(out)
+            if r.returncode != 0: fails.append({'kind': 'differs_from_direct', 'detail': f'special output: compile to {out} failed rc={r.returncode} {r.stderr[:100]!r}', 'ops': list(trace)}); break
+            if not stat.S_ISCHR(os.stat(node).st_mode):
+                fails.append({'kind': 'device_replaced_by_file', 'detail': 'special output: the character device given as -o was replaced by a regular file (a cache hit renamed a temporary file over it)', 'ops': list(trace)}); break
+            if out.startswith('real'):
+                dr = subprocess.run([compiler, '-O1', '-c', 'm.c', '-o', 'direct.o'], cwd=w, capture_output=True)
+                got = open(os.path.join(w, out), 'rb').read(); want = open(os.path.join(w, 'direct.o'), 'rb').read()
+                if got != want:
+                    fails.append({'kind': 'differs_from_direct', 'detail': f'special output: after compiles to a device, the same compile to {out} gave {len(got)} bytes, the direct compile {len(want)} bytes (what was read back from the device had been stored under the key)', 'ops': list(trace)}); break
+    finally:
+        sc.stop(); shutil.rmtree(d, ignore_errors=True)
+    return {'requests': reqs, 'fails': fails, 'samples': [' ; '.join(trace)[:600]]}
